@@ -1812,15 +1812,16 @@ package spec
 //@   ensures  [C07] fixed-point @@ result0 != nil && result1 != nil ==> jv(result1) == jv(result0)
 
 // ---- ordering of schema properties (C06)
+// (C07: encoding a decoded schema sorts its properties with this relation, so it must not panic for any pair of positions)
 //@ func verifLemmaLessTotal
-//@   property C06
+//@   property C06, C07
 //@   requires 0 <= i && i < len(items) && 0 <= j && j < len(items)
 //@   ensures  [C06] asymmetric @@ !(result0 && result1)
 //@   ensures  [C06] total-on-distinct-names @@ items[i].Name != items[j].Name ==> result0 || result1
 //@   ensures  [C06] irreflexive @@ i == j ==> !result0
 
 //@ func verifLemmaLessTransitive
-//@   property C06
+//@   property C06, C07
 //@   requires 0 <= i && i < len(items) && 0 <= j && j < len(items) && 0 <= k && k < len(items)
 //@   ensures  [C06] transitive @@ result0 && result1 ==> result2
 
